@@ -299,11 +299,15 @@ func c14WeekdaysFrom(m *ruModel, f *kit.Func, arg ast.Expr) string {
 			other++
 			return true
 		}
-		if rs.Value == nil {
-			bad++ // every index selected
-			return true
+		vo := kit.LoopElemVar(info, rs)
+		isV := func(x ast.Expr) bool {
+			if vo != nil && kit.ObjOf(info, x) == vo {
+				if _, isId := ast.Unparen(x).(*ast.Ident); isId {
+					return true
+				}
+			}
+			return kit.LoopElem(info, rs, x)
 		}
-		vo := kit.ObjOf(info, rs.Value)
 		// the statement must be the then-branch of `if v` directly in the loop body
 		ifs, _ := f.Enclosing(as, func(x ast.Node) bool { _, ok := x.(*ast.IfStmt); return ok }).(*ast.IfStmt)
 		if ifs == nil || ifs.Pos() < rs.Body.Pos() {
@@ -312,13 +316,19 @@ func c14WeekdaysFrom(m *ruModel, f *kit.Func, arg ast.Expr) string {
 		}
 		inThen := ifs.Body.Pos() <= as.Pos() && as.End() <= ifs.Body.End()
 		cond := ast.Unparen(ifs.Cond)
+		// `b := v; if b {`
+		if id, isId := cond.(*ast.Ident); isId && !isV(id) {
+			if rhs, _, _, n := c13SingleDef(f, kit.ObjOf(info, id)); n == 1 && rhs != nil {
+				cond = ast.Unparen(rhs)
+			}
+		}
 		pos, known := false, false
-		if kit.ObjOf(info, cond) == vo {
+		if isV(cond) {
 			pos, known = true, true
-		} else if u, isNot := cond.(*ast.UnaryExpr); isNot && u.Op == token.NOT && kit.ObjOf(info, u.X) == vo {
+		} else if u, isNot := cond.(*ast.UnaryExpr); isNot && u.Op == token.NOT && isV(u.X) {
 			pos, known = false, true
 		} else if a, b, neg, isEq := ruEqLeaf(cond); isEq {
-			if tv, has := info.Types[b]; has && tv.Value != nil && kit.ObjOf(info, a) == vo {
+			if tv, has := info.Types[b]; has && tv.Value != nil && isV(a) {
 				pos, known = (tv.Value.String() == "true") != neg, true
 			}
 		}
